@@ -149,3 +149,17 @@ claim("C04", "proof",
       "check; with C01 (all realisations equal one SI law) the claim covers inputs, marshalling and outputs. Structure enumerated. A1.",
       "deductive: symbolic execution of real source + exact rational-function normalisation + SMT; ABI parameter order from clang AST",
       "DESIGN.md 3/C04")
+claim("C10", "proof",
+      "Protocol: every exported function of engine.cpp, started in the typestate invariant G (released, or the selected pointer is "
+      "live and satisfies the class invariant), re-establishes G with all run-time-error obligations discharged; finalize releases "
+      "the object and marks it released (so a second finalize is a no-op). Completion: Iterate on a completed object returns false "
+      "and changes neither time, state, cursor nor records (all six classes). Wrapper: LibRDEngine.is_complete is the negation of "
+      "the library's last answer and False right after any setup (symbolic run with a recording library). Termination: every loop "
+      "reached from Init, Iterate (six classes), iterate_n and the initial-state redistribution is counted (automatic variant) or "
+      "has a registered variant proved decreasing and bounded. Isolation and clean slate are exercised on the real library built "
+      "from the working tree (concrete scenario) and by the sanitizer battery.",
+      "Known findings (known_findings.txt): the redistribution loop has no variant (set-up can hang for sub-molecule totals); all "
+      "engine objects share one native simulation (isolation fails by design). Not decided: wall-clock slice loop of "
+      "engineexport_run, Gillespie runs whose t_max is never reached, completion after exactly ceil(t_max/dt) steps (induction L7).",
+      "deductive: typestate + Iterate contracts + loop variants on clang AST, symbolic wrapper run; concrete isolation scenario",
+      "DESIGN.md 3/C10")
